@@ -238,6 +238,33 @@ func boundaryCases(add func(h string, sp ...*spec)) {
 			add(fmt.Sprintf("directed range-boundary %s #%d", m.name, i/10), group[i:j]...)
 		}
 	}
+	// output area larger than the input area / beyond current memory (the two ranges of a call are sized separately)
+	{
+		ret64 := []byte{0x60, 0x2a, 0x60, 0x00, 0x52, 0x60, 0x40, 0x60, 0x00, 0xf3} // MSTORE(0,42); RETURN(0,64)
+		type q struct{ inOff, inSize, retOff, retSize uint64 }
+		qs := []q{{0, 0, 0, 1}, {0, 0, 0, 32}, {0, 0, 0, 64}, {0, 0, 64, 32}, {0, 0, 1000, 64}, {0, 1, 0, 32}, {0, 1, 31, 33}, {0, 32, 32, 64}, {0, 32, 4096, 64},
+			{100, 4, 0, 64}, {2000, 64, 0, 96}, {0, 64, 64, 65}, {0, 0, 0xffff, 1}}
+		for _, op := range []byte{oCALL, oCALLCODE, oDELEGATECALL, oSTATICCALL} {
+			for _, tgt := range []common.Address{aSecond, common.BytesToAddress([]byte{4}), aRevert} {
+				var group []*spec
+				for _, x := range qs {
+					for _, pre := range []bool{false, true} {
+						a := &asm{}
+						if pre {
+							a.pushU(7).pushU(0).op(oMSTORE) // memory already 32 bytes
+						}
+						a.pushU(x.retSize).pushU(x.retOff).pushU(x.inSize).pushU(x.inOff)
+						if op == oCALL || op == oCALLCODE {
+							a.pushU(0)
+						}
+						a.pushA(tgt).pushU(50000).op(op, oPOP, oMSIZE, oPOP, oRETURNDATASIZE, oPOP, oSTOP)
+						group = append(group, &spec{mode: "call", code: a.b, code2: ret64, input: input, gas: 300000, value: z()})
+					}
+				}
+				add(fmt.Sprintf("directed call-out-larger-than-in %#x -> %x", op, tgt[18:]), group...)
+			}
+		}
+	}
 	// single-operand ops
 	{
 		var group []*spec
